@@ -33,7 +33,7 @@ var c14Pres = []string{"", "alpha", "alpha.1", "rc1", "rc.1", "0.3.7", "x-y-z", 
 const c14LongPre = "feature-some-rather-long-branch-name-with-many-words.in.it.20240510.build.123456789"
 
 var c14Metas = []string{"", "git", "001", "a.b-c", "Build5", "build-7", "git.0123456789abcdef0123456789abcdef01234567"}
-var c14NearMiss = []string{"1.2.3--", "1.0.0-rc-", "2.0.0+exp-", "1.2.3-rc-+m-", "1.2.3.4", "1..2", "abc", "1.2.x", "01.2.3", "1.2.3-01", "V1.2.3", " 1.2.3", "1.2.3 ", "1.2.3-rc_1", "1.2.3-", "1.2.3+", "v", "1.2.3-rc1+", "1.2.3-+b", "1.2.3-a..b", "1.2.3+a..b", "-1.2.3", "1.-2.3", "1.2.3-ü", "v1.2.3-01.1", "vv1.2.3", "1.2.3-rc.01", "1.2.3+001.01"}
+var c14NearMiss = []string{"1.2.3--", "1.0.0-rc-", "2.0.0+exp-", "1.2.3-rc-+m-", "1.2.3.4", "1..2", "abc", "1.2.x", "01.2.3", "1.2.3-01", "V1.2.3", " 1.2.3", "1.2.3 ", "1.2.3-rc_1", "1.2.3-", "1.2.3+", "v", "1.2.3-rc1+", "1.2.3-+b", "1.2.3-a..b", "1.2.3+a..b", "-1.2.3", "1.-2.3", "1.2.3-ü", "v1.2.3-01.1", "vv1.2.3", "1.2.3-rc.01", "1.2.3+001.01", "1.2.3.4-rc1", "v5.10.0.2+git", "1.2.3.4-5", "1.2.3.4.5-beta+exp.1", "2024.01.15.1-2"}
 
 func c14Bases() []string {
 	var out []string
